@@ -213,16 +213,38 @@ pub fn replay(ctx: &valve::Ctx, maps: &[Value], seed: u64, reps: usize, rep: &mu
                 }
                 let line = String::from_utf8_lossy(&buf).lines().next().unwrap_or("").to_string();
                 let _ = ptx.send(line);
+                // the framing of the body is the server's choice (the document starts with one digit that selects it):
+                // Content-Length, chunked transfer coding (several chunks), or delimited by closing the connection
+                let (framing, doc) = doc.split_at(1);
                 let body = doc.as_bytes();
-                let head = format!("HTTP/1.1 200 OK\r\nContent-Type: application/json\r\nContent-Length: {}\r\nConnection: close\r\n\r\n", body.len());
-                let _ = st.write_all(head.as_bytes());
-                let _ = st.write_all(body);
+                match framing {
+                    "1" => {
+                        let _ = st.write_all(b"HTTP/1.1 200 OK\r\nContent-Type: application/json\r\nTransfer-Encoding: chunked\r\nConnection: close\r\n\r\n");
+                        for ch in body.chunks(1 + body.len() / 3) {
+                            let _ = st.write_all(format!("{:x}\r\n", ch.len()).as_bytes());
+                            let _ = st.write_all(ch);
+                            let _ = st.write_all(b"\r\n");
+                        }
+                        let _ = st.write_all(b"0\r\n\r\n");
+                    }
+                    "2" => {
+                        let _ = st.write_all(b"HTTP/1.1 200 OK\r\nContent-Type: application/json\r\nConnection: close\r\n\r\n");
+                        let _ = st.write_all(body);
+                    }
+                    _ => {
+                        let head = format!("HTTP/1.1 200 OK\r\nContent-Type: application/json\r\nContent-Length: {}\r\nConnection: close\r\n\r\n", body.len());
+                        let _ = st.write_all(head.as_bytes());
+                        let _ = st.write_all(body);
+                    }
+                }
             }
         }
     });
     for n in 0 .. reps {
         let mut info = Map::new();
         let types = &t["types"];
+        // one document in three is large (long texts, a hundred players: tens of kilobytes)
+        let long = n % 3 == 2;
         for f in t["fields"].as_array().unwrap() {
             let m = f["src"].as_str().unwrap();
             let v = match types[m].as_str().unwrap_or("str") {
@@ -236,20 +258,22 @@ pub fn replay(ctx: &valve::Ctx, maps: &[Value], seed: u64, reps: usize, rep: &mu
                     }
                     Value::Object(mm)
                 }
-                _ => json!(random_string(&mut rng, 0, 40)),
+                _ => json!(random_string(&mut rng, 0, if long { 600 } else { 40 })),
             };
             info.insert(m.to_string(), v);
         }
-        let names: Vec<String> = (0 .. [0usize, 1, 3, 100][rng.gen_range(0 .. 4)]).map(|_| random_string(&mut rng, 0, 12)).collect();
+        let names: Vec<String> = (0 .. if long { 100 } else { [0usize, 1, 3, 100][rng.gen_range(0 .. 4)] }).map(|_| random_string(&mut rng, 0, 12)).collect();
         info.insert(t["players"]["from"].as_str().unwrap().to_string(), json!(names));
         let doc = json!({"Info": info});
-        tx.send(doc.to_string()).unwrap();
+        let framing = n % 3 + (n / 3) % 3; // every framing with every size class
+        tx.send(format!("{}{}", framing % 3, doc)).unwrap();
         let ip = addr(port).ip();
         let res = std::panic::catch_unwind(|| eco::query_with_timeout(&ip, Some(port), &timeouts(0)));
         let reqline = prx.recv_timeout(std::time::Duration::from_secs(3)).unwrap_or_default();
         rep.evaluations += 1;
         rep.distinct.insert(hash_of(&doc.to_string()));
-        let case = json!({"game":"eco","document":doc});
+        let framing_name = ["content-length", "chunked", "close-delimited"][framing % 3];
+        let case = json!({"game":"eco","document":doc,"framing":framing_name,"bytes":doc.to_string().len()});
         if !reqline.starts_with("GET /frontpage") {
             rep.violation("C07", "eco: the request is not GET /frontpage", json!({"kind":"gamemap","case":case,"request_line":reqline}));
         }
